@@ -256,8 +256,8 @@ def cmdNames : P String := do
   withFit nx nu s fun _ => do
     pure ("ok\t" ++ "\t".intercalate (featureNamesOut s (nx, nu) fitEp given sym fmt callEp))
 
-/-- `accept <n|k names…> <n|k names…>` : would a call with the second names be accepted by an estimator fitted with the
-first? -/
+/-- `accept <n|k names…> <a|n|k names…>` : would a call with the second input (`a`: a plain array, `n`: a frame without
+valid names, `k names…`: a frame with these names) be accepted by an estimator fitted with the first names? -/
 def cmdAccept : P String := do
   let one : P (Option (List String)) := do
     let g ← tok
@@ -266,7 +266,10 @@ def cmdAccept : P String := do
       | some k => do let ns ← pMany k tok; pure (some ns)
       | none => throw "names expected"
   let f ← one
-  let c ← one
+  let c ← (do
+    match (← get) with
+    | "a" :: rest => set rest; pure CallInput.array
+    | _ => do let ns ← one; pure (CallInput.frame ns))
   pure (if namesAccepted f c then "ok 1" else "ok 0")
 
 def pRMat : P Gram.RMat := do
